@@ -32,6 +32,7 @@ A backend parameter (maildir, both layouts) is carried by Driver / Execution.
 from __future__ import annotations
 
 import base64
+import zlib
 import binascii
 import json
 import os
@@ -222,6 +223,13 @@ class Driver:
         self.c = self.w.connect('a', local=True)
         self.c.take()
         self.w.login('a')
+        # a second connection of the same user, open from the start, through which the probes
+        # of every second execution go: what exists is the user's, not the connection's
+        self.o = self.w.connect('o', local=True)
+        self.o.take()
+        self.w.login('o')
+        self.w.cmd('o', b'LIST "" *')
+        self.probe_via = 'a'
         self.wire: list = []      # transcript
         self.nmsg = 0
         self.ncmd = 0
@@ -229,20 +237,21 @@ class Driver:
     def close(self):
         self.w.close()
 
-    def _cmd(self, line: bytes):
+    def _cmd(self, line: bytes, via: str = 'a'):
         """-> (cond or None, [Resp]); cond None = no tagged answer / garbage."""
         self.ncmd += 1
-        if self.c.done:
+        conn = self.c if via == 'a' else self.o
+        if conn.done:
             self.wire.append((line, b'<connection closed>'))
             return None, []
-        out = self.w.cmd('a', line)
+        out = self.w.cmd(via, line)
         self.wire.append((line, out))
         try:
             resps = rp.parse_stream(out)
         except rp.Malformed:
             return None, []
         tagged = [r for r in resps if r.kind == 'tagged']
-        if len(tagged) != 1 or self.c.done:
+        if len(tagged) != 1 or conn.done:
             return None, resps
         return tagged[0].cond, resps
 
@@ -267,19 +276,19 @@ class Driver:
             ents.append((toks, any(f.lower() == b'\\noselect' for f in flags)))
         return ents, bad
 
-    def listing(self, word: bytes, ref, pat):
+    def listing(self, word: bytes, ref, pat, via: str = 'a'):
         line = word + b' ' + (self.conc.wire_name(ref) if ref else b'""') \
             + b' ' + (self.conc.wire_pattern(pat) if pat else b'""')
-        cond, resps = self._cmd(line)
+        cond, resps = self._cmd(line, via)
         o = self._okno(cond)
         ents, bad = self._ents(resps, word)
         o['ents'] = ents
         o['bad'] = o['bad'] or bad
         return o
 
-    def status(self, name):
+    def status(self, name, via: str = 'a'):
         cond, resps = self._cmd(b'STATUS ' + self.conc.wire_name(name)
-                                + b' (MESSAGES UIDNEXT UIDVALIDITY)')
+                                + b' (MESSAGES UIDNEXT UIDVALIDITY)', via)
         o = self._okno(cond)
         o['n'] = 0
         if o['ok']:
@@ -457,6 +466,8 @@ class Execution:
 
     def run(self):
         d = Driver(self.conc, self.backend)
+        # every second execution (by its program): the probes go through the other connection
+        d.probe_via = 'o' if zlib.crc32(repr(self.steps[:3]).encode()) % 2 else 'a'
         try:
             self._run(d)
         finally:
@@ -507,10 +518,10 @@ class Execution:
             pl = ps = None
             st = {}
             if self.probes:
-                pl = d.listing(b'LIST', (), ('*',))
-                ps = d.listing(b'LSUB', (), ('*',))
+                pl = d.listing(b'LIST', (), ('*',), d.probe_via)
+                ps = d.listing(b'LSUB', (), ('*',), d.probe_via)
                 for n in sorted(set(prev_mbx) | set(stp['mbx']) | set(r.get('gone', ()))):
-                    st[n] = d.status(n)
+                    st[n] = d.status(n, d.probe_via)
                 if why is None:
                     if pl['bad'] or not pl['ok']:
                         why = 'probe LIST "" * failed'
